@@ -4,38 +4,65 @@ import (
 	nd "oss.terrastruct.com/d2/internal/verifnd"
 )
 
+const c33Tol = 1e-5
+
+// c33Frame runs makeKeyframe for board i of n with interval T exactly as Wrap
+// does and returns (before, start, end, after, fadesOut).
+func c33Frame(i, n, T int) (before, start, end, after float64, fades bool) {
+	nd.CaptureFormats(true)
+	s := makeKeyframe(i*T, T, n*T, i, "h")
+	fs := nd.FloatsOf(s)
+	nd.CaptureFormats(false)
+	nd.Assert(len(fs) == 3 || len(fs) == 4, "keyframe has 3 or 4 percentages")
+	before, start, end = fs[0], fs[1], fs[2]
+	after = 100
+	if len(fs) == 4 {
+		after = fs[3]
+		fades = true
+	}
+	return
+}
+
 // VerifC33: keyframes of an n-board animation with interval T, exactly as Wrap builds them.
 func VerifC33() {
 	n := nd.Choose("n", nd.Param("NMIN", 1), nd.Param("NMAX", 4))
 	T := nd.IntRange("T", 2, nd.Param("TMAX", 1000000))
-	nd.CaptureFormats(true)
-	const tol = 1e-5
 	prevEnd := -1.0
 	prevAfter := -1.0
 	for i := 0; i < n; i++ {
-		s := makeKeyframe(i*T, T, n*T, i, "h")
-		fs := nd.FloatsOf(s)
-		nd.CaptureFormats(false)
-		nd.Assert(len(fs) == 3 || len(fs) == 4, "keyframe has 3 or 4 percentages")
-		before, start, end := fs[0], fs[1], fs[2]
+		before, start, end, after, fades := c33Frame(i, n, T)
 		nd.Cover("frame")
-		nd.Assert(before >= 0 && before <= start+tol, "0 <= before <= start")
-		nd.Assert(start <= end+tol, "start <= end")
-		nd.Assert(end <= 100+tol, "end <= 100")
-		if len(fs) == 4 {
-			after := fs[3]
-			nd.Assert(end <= after+tol && after <= 100+tol, "end <= after <= 100")
-			nd.Assert(i < n-1, "only the last board may use the stay-until-100% form")
-			prevAfter = after
-		} else {
-			nd.Cover("last-form")
+		nd.Assert(before >= 0 && before <= start+c33Tol, "0 <= before <= start")
+		nd.Assert(start <= end+c33Tol, "start <= end")
+		nd.Assert(end <= after+c33Tol && after <= 100+c33Tol, "end <= after <= 100")
+		if !fades {
+			nd.Cover("stays-until-100")
 			nd.Assert(i == n-1, "a board before the last must fade out again (otherwise two boards are visible)")
 		}
+		// board i is shown during the i-th interval of the cycle
+		lo := float64(100*i) / float64(n)
+		hi := float64(100*(i+1)) / float64(n)
+		nd.Assert(start >= lo-c33Tol && start <= lo+c33Tol, "board i becomes fully visible at the start of interval i")
+		nd.Assert(end <= hi+c33Tol && after <= hi+c33Tol, "board i is gone by the end of interval i")
 		if i > 0 {
-			nd.Assert(prevEnd <= start+tol, "board i-1 stops being fully visible before board i is")
-			nd.Assert(prevAfter <= start+tol, "board i-1 is invisible when board i is fully visible")
+			nd.Assert(prevEnd <= start+c33Tol, "board i-1 stops being fully visible before board i is")
+			nd.Assert(prevAfter <= start+c33Tol, "board i-1 is invisible when board i is fully visible")
+			nd.Assert(before >= prevEnd-c33Tol, "board i starts fading in only when board i-1 starts fading out")
 		}
-		prevEnd = end
-		nd.CaptureFormats(true)
+		prevEnd, prevAfter = end, after
 	}
+}
+
+// VerifC33Penultimate: the board before the last one of n boards must fade
+// out, for every n up to NMAX (the form is chosen from a rounded percentage).
+func VerifC33Penultimate() {
+	n := nd.Choose("n", nd.Param("NMIN", 2), nd.Param("NMAX", 64))
+	T := nd.IntRange("T", 2, nd.Param("TMAX", 1000000))
+	if nd.Known("C33-ceil-100-boards") {
+		nd.Assume(n <= 100)
+	}
+	_, _, end, after, fades := c33Frame(n-2, n, T)
+	nd.Cover("penultimate")
+	nd.Assert(fades, "the board before the last must fade out again (otherwise two boards are visible)")
+	nd.Assert(end <= after+c33Tol && after <= float64(100*(n-1))/float64(n)+c33Tol, "it is invisible by the start of the last interval")
 }
